@@ -33,6 +33,11 @@ def errName : Err → String
   | .parse => "parse"
   | .keyValue => "keyvalue"
 
+/-- `initializeState` / `genesisCommit` are pure functions of the genesis value (theorem
+`initialize_idempotent_on_input`): a second run on the same value, or on its JSON round
+trip, gives the same state, and the value itself is unchanged. -/
+def reuse : String := " again=same json=same mut=false"
+
 /-- `gen <balance prefix> <height prefix> <timestamp prefix> <fee prefix> <p0,..,p4> <addr:bal>*`
 → `ok hdr=<height>:<timestamp>:<numTxs> rootok=true n=<#keys> <key>=<value>…` (keys sorted)
 or `err <kind>`. The model's root is the abstract function of the content, so `rootok` (header
@@ -47,12 +52,12 @@ def step (_ : Unit) (ws : List String) : Unit × String :=
       let c : Config := { balancePrefix := bp, heightPrefix := hp, timestampPrefix := tp,
                           feePrefix := fp, minUnitPrice := prices }
       match genesisCommit (fun _ => 0) c allocs with
-      | .error e => ((), "err " ++ errName e)
+      | .error e => ((), "err " ++ errName e ++ reuse)
       | .ok (m, hdr) =>
         let ks := sortKeys (keysOf m)
         let ents := ks.map fun k => toHex k ++ "=" ++ toHex ((get m k).getD [])
         ((), s!"ok hdr={hdr.height}:{hdr.timestamp}:{hdr.numTxs} rootok=true n={ks.length} "
-              ++ " ".intercalate ents)
+              ++ " ".intercalate ents ++ reuse)
     | _, _, _, _, _, _ => ((), "bad-op")
   | _ => ((), "bad-op")
 
